@@ -52,6 +52,7 @@ class Ctx:
                 sp = i
                 break
         self.sy = Sym(prog, self.an, slice_param=sp)
+        self.sy.unique_locals = True
         self.extra = list(extra_facts or [])       # Poly >= 0 facts valid everywhere in the body
         self.notes = dict(param_notes or {})
         self._facts = {}
@@ -803,6 +804,11 @@ def seq_len_poly(ctx, t):
     return ctx.len_sym(sy.name(t0))
 
 
+def stateful(t):
+    """does the value depend on a mutably borrowed local (iterator / builder state)?"""
+    return any(x[0] in ("mut", "loopval", "var") for x in walk(t))
+
+
 def rule_unwrap(ctx, o):
     """Result::unwrap / Option::unwrap / expect"""
     t = o.call
@@ -813,6 +819,10 @@ def rule_unwrap(ctx, o):
     ge, ne, other = ctx.facts_at(o.bb)
     for at in other:
         if at[0] in ("ok", "some") and at[1] == nm:
+            # the guard must test this very value: a stateful call (`it.next()`) at another site has the same canonical
+            # name but is a different value
+            if len(at) > 2 and stateful(a) and strip(unmut(at[2])) != strip(a):
+                continue
             return True, "guarded: %s" % at[0]
     if a[0] == "call":
         s = short(a[1])
